@@ -13,6 +13,7 @@ INVARIANT LoadTwiceEqual
 INVARIANT FilesDescribeSnaps
 INVARIANT ResaveFixpoint
 INVARIANT LoadedIsCanonical
+INVARIANT FreshResaveKeepsParameters
 PROPERTY SnapshotsFrozen
 PROPERTY RefusalsChangeNothing
 PROPERTY WritesAreAppendOnly
